@@ -414,3 +414,47 @@ def probe_impls(out):
         body += "    {\n        let all: Vec<(&str, bool)> = vec![%s];\n        let impls: Vec<&str> = all.iter().filter(|x| x.1).map(|x| x.0).collect();\n" % flags
         body += '        v.push(json!({"ev": "rt.impls", "struct": %s, "impls": impls}));\n    }\n' % rust_str(n)
     return pre + HEAD + body + TAIL
+
+
+def probe_bindgroup_ops(out, ops):
+    """execute a TLC-exported operation sequence over the generated bind group API on the recording device"""
+    groups = out.get("groups", [])
+    if not groups:
+        return None
+    body = "    let device = wgpu::Device::new_for_test();\n    let _ = wgpu::take_log();\n"
+    body += '    let mark = |v: &mut Vec<serde_json::Value>, op: &str, arg: &str| { for e in wgpu::take_log() { v.push(e); } v.push(json!({"ev": "rt.op", "op": op, "arg": arg})); };\n'
+    tok = 0
+    inits = {}
+    body += '    mark(&mut v, "init", "");\n'
+    for g in groups:
+        no = g["no"]
+        fl, toks = [], []
+        for f in g.get("fields", []):
+            d, e = token_decl(tok, f["kind"])
+            body += d
+            fl.append("%s: %s" % (f["name"], e))
+            toks.append('json!({"name": %s, "kind": "%s", "id": tok%d.id, "offset": "%d"})' % (rust_str(f["name"]), f["kind"], tok, 256 * (tok + 1)))
+            tok += 1
+        inits[no] = ", ".join(fl)
+        body += '    v.push(json!({"ev": "rt.tokens", "group": "%s", "fields": [%s]}));\n' % (no, ", ".join(toks))
+        body += "    let mut g%s: Option<m::bind_groups::BindGroup%s> = None;\n" % (no, no)
+    for pk, ctor in (("compute", "ComputePass"), ("render", "RenderPass"), ("bundle", "RenderBundleEncoder")):
+        body += "    let mut pass_%s = wgpu::%s::new_for_test();\n" % (pk, ctor)
+    nos = [g["no"] for g in groups]
+    for o in ops:
+        op, arg = o["op"], o["arg"]
+        if op == "get_layout":
+            body += '    mark(&mut v, "get_layout", "%s");\n    let _ = m::bind_groups::BindGroup%s::get_bind_group_layout(&device);\n' % (arg, arg)
+        elif op == "from_bindings":
+            body += '    mark(&mut v, "from_bindings", "%s");\n    g%s = Some(m::bind_groups::BindGroup%s::from_bindings(&device, m::bind_groups::BindGroupLayout%s { %s }));\n' % (arg, arg, arg, arg, inits[arg])
+        elif op == "set":
+            g, pk = arg.split("@")
+            body += '    mark(&mut v, "set", "%s");\n    g%s.as_ref().unwrap().set(&mut pass_%s);\n' % (g, g, pk)
+        elif op == "set_bind_groups":
+            body += '    mark(&mut v, "set_bind_groups", "%s");\n    m::set_bind_groups(&mut pass_%s, %s);\n' % (arg, arg, ", ".join("g%s.as_ref().unwrap()" % n for n in nos))
+        elif op == "bind_groups_set":
+            body += '    mark(&mut v, "bind_groups_set", "%s");\n    m::bind_groups::BindGroups { %s }.set(&mut pass_%s);\n' % (arg, ", ".join("bind_group%s: g%s.as_ref().unwrap()" % (n, n) for n in nos), arg)
+        elif op == "create_pipeline_layout":
+            body += '    mark(&mut v, "create_pipeline_layout", "");\n    let _ = m::create_pipeline_layout(&device);\n'
+    body += '    mark(&mut v, "end", "");\n'
+    return HEAD + body + TAIL
